@@ -413,6 +413,19 @@ def array2d_original_orientation(shape, roe_corner, store_native):
     a = _arr(shape)
     ra = lu.rotate_array_via_roe_corner_from(array=a.copy(), roe_corner=roe_corner)
     mk = aa.Mask2D.all_false(shape_native=shape, pixel_scales=1.0)
+    # a masked array (mask not symmetric under any flip): what is un-rotated is its native form, masked pixels zero
+    if shape[0] * shape[1] >= 3:
+        mm = np.zeros(shape, dtype=bool)
+        mm[0, 0] = True
+        mm[-1, (shape[1] - 1) // 2] = shape[0] > 1 or shape[1] > 2
+        if (~mm).sum() >= 1:
+            am = aa.Array2D(values=ra.copy(), mask=aa.Mask2D(mask=mm, pixel_scales=1.0), header=Header(original_roe_corner=roe_corner),
+                            store_native=store_native)
+            want_m = lu.rotate_array_via_roe_corner_from(array=np.where(mm, 0.0, ra), roe_corner=roe_corner)
+            got_m = np.asarray(am.original_orientation, dtype=float)
+            if got_m.shape != want_m.shape or not np.array_equal(got_m, want_m):
+                return "masked Array2D(store_native=%s).original_orientation = %r, the un-rotated native form is %r" % (
+                    store_native, got_m.tolist(), want_m.tolist())
     arr = aa.Array2D(values=ra.copy(), mask=mk, header=Header(original_roe_corner=roe_corner), store_native=store_native)
     try:
         got = np.asarray(arr.original_orientation)
